@@ -26,7 +26,7 @@ ASSUMPTIONS = ['precondition of the property: coordinate sorted input and every 
                'schedules are the deterministic ejection interval of a single-threaded generator']
 MIN_NONTRIVIAL = {'quick': 1500, 'thorough': 60000}
 REQUIRED_MONITORS = ['event:arrive', 'event:emit', 'emit:before_end_of_input', 'schedule:runs', 'path:alignmentfile', 'oracle:truth_compared',
-                     'eject:rounds_with_ejection', 'eject:rounds_nonprefix', 'eject:rounds_noncontiguous', 'history:restarted_passes', 'config:max_associated_fragments', 'lib:cross_contig_twins', 'lib:molecule_end_grows_after_creation', 'lib:plain_fragments_on_coordinate_0']
+                     'eject:rounds_with_ejection', 'eject:rounds_nonprefix', 'eject:rounds_noncontiguous', 'history:restarted_passes', 'config:max_associated_fragments', 'lib:cross_contig_twins', 'lib:molecule_end_grows_after_creation', 'lib:plain_fragments_on_coordinate_0', 'config:cache_size_left_at_its_default']
 EXHAUSTIVE = {'quick': True, 'thorough': True}
 SHARD_TIMEOUT = {'quick': 900, 'thorough': 7200}
 
@@ -263,6 +263,10 @@ def run_case(case):
     # on the ejection schedule either
     cap = r.choice([None, None, None, 2, 3])
     margs = {'cache_size': cache}
+    if cache == 10000 and case['i'] % 2 == 1:
+        # the size of the molecule cache left at its default (the same 10000): nothing may depend on whether it was spelled out
+        margs = {}
+        acc.count('config:cache_size_left_at_its_default')
     if cap:
         margs['max_associated_fragments'] = cap
     acc.count('config:max_associated_fragments', 1 if cap else 0)
